@@ -210,7 +210,7 @@ def apply_op(sx, pool, i, kind, preset=None):
             idx = len(T._type_info)
             T.append_field(fname, ftype)
         else:
-            idx = sx.choose('index%d' % i, [0, -1] if sx.tier == 'quick' else [0, 1, -1, 2, -2])
+            idx = sx.choose('index%d' % i, [0, -1] if sx.tier == 'quick' else ([0, 1, -1, 2, -2] if i < 2 else [0, -1, 1]))
             T.insert_field(idx, fname, ftype)
         changed = set()
         chk = []
@@ -310,9 +310,9 @@ def _shards(triples):
     return out
 
 
-@harness('C15', tier_params={'quick': _shards(H3[:1]), 'thorough': _shards(H3 + [(a, b, c) for a in ('prim', 'cust', 'array', 'mandatory', 'subclass') for b in ('cust', 'mandatory') for c in ('append', 'insert')])},
+@harness('C15', tier_params={'quick': _shards(H3[:1]), 'thorough': _shards(H3 + [(a, b, c) for a in ('cust', 'mandatory', 'subclass') for b in ('cust', 'mandatory') for c in ('append', 'insert') if (a, b, c) not in H3])},
          label=lambda p: '%s t0=%d kw0=%d' % (','.join(p[0]), p[1], p[2]), functions=FUNCS, max_paths=200000,
-         bounds={'history': 'sequences of 3 operations: one representative kind-triple (customize, customize, append_field) in the quick tier, 28 kind-triples (8 representative + every derivation x {customize, Mandatory} x {append, insert}) in the thorough tier; targets and keyword sets enumerated, numbers symbolic'})
+         bounds={'history': 'sequences of 3 operations: one representative kind-triple (customize, customize, append_field) in the quick tier, about 20 kind-triples (8 representative + {customize, Mandatory, subclassing} x {customize, Mandatory} x {append, insert}) in the thorough tier; targets and keyword sets enumerated, numbers symbolic'})
 def history3(sx, p):
     kinds, t0, kw0 = p
     return _run_history(sx, list(kinds), {'t0': t0, 'kw0': kw0})
